@@ -151,6 +151,7 @@ class TWorld(object):
     self.seen_frames = {}      # conn id -> number of peer frames already checked
     self.written_unanswered = {}   # conn id -> {tag: request name}
     self.peak = 0
+    self.early_answered = set()   # args of requests whose tag the peer named in a reply before it had seen the request
     self.peak_by_gen = {}
     self.new_transport()
     self.lp.monitor = self.monitor
@@ -183,6 +184,10 @@ class TWorld(object):
           if not (2 <= tag <= MAXTAG):
             self.v('C11.reserved-tag', 'request %r was written with tag %d (reserved / out of range) on connection c%d'
                    % (r.get('arg'), tag, c.id), tag=tag)
+          if r.get('arg') in self.early_answered and tag not in wu:
+            # the peer "answered" this request's tag before the request reached it (a reply for a tag it had not seen):
+            # the transport completed the request and may reuse the tag; the frame arriving now is not an unanswered request
+            continue
           if tag in wu:
             self.v('C11.duplicate-tag', 'request %r was written with tag %d while request %r with the same tag is still unanswered on c%d'
                    % (r.get('arg'), tag, wu[tag], c.id))
@@ -209,7 +214,9 @@ class TWorld(object):
       if r['arg'] in everwritten:
         if r['arg'] not in written and answered_to_caller:
           r['released'] = True
-      elif answered_to_caller and (self.sink.state == ChannelState.Open or r['gen'] != self.generation):
+      elif answered_to_caller and (self.sink.state == ChannelState.Open or r['gen'] != self.generation) \
+           and not any(c.write_blocked for c in self.net.live_conns()):
+        # (while the send buffer is full the send loop cannot reach - and drop - a queued request)
         r['released'] = True
 
   def peer_answers(self, c, tag):
@@ -251,6 +258,12 @@ class TWorld(object):
       highest = max([r['tag'] for r in self.server_log if r.get('conn') == c.id and 'raw' in r] or [1])
       answered = sorted(set(r['tag'] for r in self.server_log if r.get('conn') == c.id and 'raw' in r and r['tag'] not in wu))
       cands = [0, 1, highest + 1, highest + 5] + answered[:1] + [t | 0x800000 for t in sorted(wu)[:1]]
+      # tags the transport has given to requests the peer has not seen yet (still queued behind a blocked write)
+      for r in self.reqs:
+        tg = self._held_tag(r)
+        if tg is not None and tg not in cands and r['arg'] not in wu.values() and not r.get('released') and len(cands) < 9 \
+           and not any(x.get('arg') == r['arg'] for x in self.server_log):
+          cands.append(tg)
       for tg in cands:
         alts.append(('peer-sends-bogus-reply tag=%d' % tg, lambda tg=tg, c=c: self._bogus(c, tg)))
       if self.proto != 'kafka':
@@ -259,6 +272,13 @@ class TWorld(object):
         alts.append(('reset c%d and open a fresh transport' % c.id, lambda c=c: self._reset(c)))
     return alts
 
+  def _held_tag(self, r):
+    if self.proto == 'kafka' or r.get('msg') is None:
+      return None
+    from scales.mux.sink import Tag
+    tg = r['msg'].properties.get(Tag.KEY)
+    return tg if isinstance(tg, int) else None
+
   def _fire(self, ev):
     self.net.fire(ev, 'ok')
     if ev.kind == 'frame' and ev.meta and ev.meta.get('tag') is not None:
@@ -266,6 +286,10 @@ class TWorld(object):
 
   def _bogus(self, c, tag):
     self.adversarial_used += 1
+    if tag is not None:
+      for r in self.reqs:
+        if self._held_tag(r) == tag and r['gen'] == self.generation and not any(x.get('arg') == r['arg'] for x in self.server_log):
+          self.early_answered.add(r['arg'])
     if self.proto == 'kafka':
       from ..refcodec import kafka as K
       c.rx += K.frame(struct.pack('>i', tag if tag is not None else 1) + b'bogus')
@@ -308,13 +332,19 @@ class TWorld(object):
     from scales.observable import Observable
     from scales.sink import ClientMessageSinkStack
     op = self.ops.pop(0)
+    if op[0] in ('block', 'unblock'):
+      # scripted back-pressure: the connection's send buffer is full from here on / drains
+      c = self.live_conn()
+      if c is not None:
+        self.net.inject(c, 'block-writes' if op[0] == 'block' else 'unblock-writes')
+      return
     name = op[1]
     arg = 'arg-%s' % name
     msg = MethodCallMessage(None, 'hi', (arg,), {})
     stack = ClientMessageSinkStack()
     stack.Push(self.term, name)
     rec = {'name': name, 'arg': arg, 'stack': stack, 'deadline': len(op) > 2 and op[2], 'timed_out': False, 'evt': None,
-           'gen': self.generation}
+           'gen': self.generation, 'msg': msg}
     if rec['deadline']:
       rec['evt'] = Observable()
       msg.properties[Deadline.EVENT_KEY] = rec['evt']
@@ -420,6 +450,8 @@ def scenarios(tier):
                                                               'max_adversarial': 1}))
   out.append(('3 requests, a deadline may fire between two ready callbacks',
               {'ops': [['req', 'a', True], ['req', 'b', True], ['req', 'c']], 'max_adversarial': 1, 'max_preempt': 1, '_bound': 2}))
+  out.append(('send buffer full while 3 requests queue up, then drains; one more request',
+              {'ops': [['block'], ['req', 'x'], ['req', 'a', True], ['req', 'b'], ['unblock'], ['req', 'c']], 'max_adversarial': 1}))
   if tier == 'thorough':
     out.append(('5 requests', {'ops': [['req', 'a', True], ['req', 'b'], ['req', 'c', True], ['req', 'd'], ['req', 'e']], 'max_adversarial': 2}))
   return out
@@ -444,7 +476,9 @@ def main(tier, seed):
     pool.join()
   rep.assumptions += ['TagPool explored with max_tag=7 (tags 2..6); the production bound 2^24-2 is the same code with max_tag=2^24-1',
                       'a reply naming an outstanding tag - even an unsolicited one - answers that tag from the peer\'s point of view',
-                      're-open = a fresh transport object for the endpoint (what the pools and the resurrector do)']
+                      're-open = a fresh transport object for the endpoint (what the pools and the resurrector do)',
+                      'a reply naming the tag of a request that has not reached the peer yet (queued behind a full send buffer) completes '
+                      'that request; when its frame arrives later it is not counted as an unanswered request']
   return rep.finish(
     rule='part 1: BFS over get/release/double-release histories of the real TagPool; part 2: stateless exploration (<= d deviations) '
          'of the real ThriftMux transport against an adversarial peer: default = issue requests, then answer in order; deviations = answer '
